@@ -195,6 +195,9 @@ class FolderProjectIo(ProjectIoInterface):
                 format_name=saving_options.data_format,
                 allow_overwrite=True,
             )
+            # ``dataset`` is a copy if a data filter was applied, but the file references written to
+            # ``result.yml`` and ``scheme.yml`` are taken from the datasets in ``result.data``.
+            result.data[label].attrs["source_path"] = data_path.as_posix()
             paths.append(data_path.as_posix())
 
         return paths
